@@ -81,6 +81,12 @@ def snapshot(model, n, prof, K):
 
 
 def run(ctx):
+    C.source_tie(ctx, 'C11', [
+        dict(file='taurex/data/planet.py', cls='BasePlanet', method='gravity_at_height', coq='gen_gravity_at_height',
+             params=['self.fullMass', 'self.fullRadius', 'height'], results=None, consts=('G',)),
+        dict(file='taurex/data/planet.py', cls='BasePlanet', method='calculate_scale_properties', coq='gen_scale_step',
+             params=['H[i-1]', 'Pl[i]', 'Pl[i-1]', 'z[i-1]', 'T[i]', 'mu[i]'], results=['deltaz[i]', 'z[i]', 'g[i]', 'H[i]'],
+             loop=True, opaque={'self.gravity_at_height': ('grav_at', 1)}, consts=('KBOLTZ',))])
     from taurex import constants as K
     from taurex.data.planet import Planet
     rng = ctx.rng
